@@ -44,6 +44,11 @@ pub enum Policy {
     /// scripted choice indexes (into the sorted enabled list); after the
     /// script is exhausted falls back to Fifo
     Script(Vec<usize>, usize),
+    /// park: the first task of the group runs alone until `nth` of its requests
+    /// have completed and it waits for the next one(s); those are held back
+    /// while all other tasks are started and run as far as they get; then
+    /// everything goes on in fifo order.  (nth, phase, completed, held)
+    Park(usize, u8, usize, Vec<usize>),
     /// scripted by relative identity: ("t", k-th spawned task) / ("r", n-th
     /// oldest in-flight request) / ("s")
     Rel(Vec<(char, usize)>, usize),
@@ -216,6 +221,53 @@ impl<'a> Exec<'a> {
                         }
                     }
                 }
+            }
+            Policy::Park(nth, phase, done, held) => {
+                let task0 = en.iter().position(|c| matches!(c, Choice::Task(_)));
+                let spawn = en.iter().position(|c| *c == Choice::Spawn);
+                if *phase == 0 {
+                    // nothing started yet: start the first task
+                    if *done == 0 && held.is_empty() && task0.is_none() && en.iter().all(|c| !matches!(c, Choice::Req(_))) {
+                        if let Some(i) = spawn {
+                            held.push(usize::MAX); // marker: first task started
+                            return i;
+                        }
+                    }
+                    if let Some(i) = task0 {
+                        return i;
+                    }
+                    let reqs: Vec<usize> = en.iter().enumerate().filter(|(_, c)| matches!(c, Choice::Req(_))).map(|(i, _)| i).collect();
+                    if reqs.is_empty() {
+                        // the first task has finished (or waits for nothing we hold)
+                        *phase = 2;
+                        return fifo(en);
+                    }
+                    if *done < *nth {
+                        *done += 1;
+                        return reqs[0];
+                    }
+                    // parked: hold what is in flight now
+                    held.clear();
+                    for c in en.iter() {
+                        if let Choice::Req(r) = c {
+                            held.push(*r);
+                        }
+                    }
+                    *phase = 1;
+                }
+                if *phase == 1 {
+                    if let Some(i) = spawn {
+                        return i;
+                    }
+                    if let Some(i) = task0 {
+                        return i;
+                    }
+                    if let Some(i) = en.iter().position(|c| matches!(c, Choice::Req(r) if !held.contains(r))) {
+                        return i;
+                    }
+                    *phase = 2;
+                }
+                fifo(en)
             }
             Policy::Script(s, pos) => {
                 if *pos < s.len() {
